@@ -276,6 +276,13 @@ def build(ctx):
 
     obs.append(Obligation("water.bw_positive", "b_water_McCain > 0 on the box (the density quotient is well defined)", bw_pos, [WATER + "b_water_McCain"], "INT"))
 
+    from ..xcheck import scalar_xcheck
+    gok = lambda pt: gas_hyp(pt)
+    for q_, an in ((GAS + "density_DAK", ["T", "p", "Tpc", "Ppc", "g"]), (GAS + "b_factor_DAK", ["T", "p", "Tpc", "Ppc"]), (GAS + "compressibility_DAK", ["T", "p", "Tpc", "Ppc"]), (GAS + "viscosity_Sutton", ["T", "p", "Tpc", "Ppc", "g"])):
+        obs.append(scalar_xcheck(ctx, q_, an, {k_: GAS_BOX[k_] for k_ in an}, hyp_real=gok, opaque_z=True))
+    for q_, an, bx in ((OIL + "density_Standing", ["T", "p", "api", "gg", "R"], OB), (WATER + "density_water_McCain", ["T", "p", "S"], WATER_BOX), (WATER + "viscosity_water_McCain", ["T", "p", "S"], WATER_BOX), (WATER + "compressibility_water_McCain", ["T", "p", "S"], WATER_BOX)):
+        obs.append(scalar_xcheck(ctx, q_, an, bx, hyp_real=(side(True) if "R" in an else None) and (lambda pt: real(OIL + "pressure_bubblepoint_Standing")(pt["T"], pt["api"], pt["gg"], pt["R"]) > 50) if "R" in an else None))
+
     def canary():
         d = one_path(ctx, GAS + "density_DAK", [T, p, Tpc, Ppc, g])
         spec = p * (tm.rconst("28.97") * g) / (ZAPP * tm.rconst("10.73159") * (T + r459))
